@@ -4,6 +4,7 @@ Proof: coq/Properties/C20.v about Model/Resolver.v.
 Tie: the real async_resolve_host and ZeroconfManager with fake mDNS (AsyncServiceInfo / AsyncZeroconf) and a fake
 getaddrinfo, on host lists x oracle outcomes and on operation sequences; compared with the extracted model and with an
 oracle written from the property text."""
+from vlib.privnames import priv_func
 import asyncio
 import ipaddress
 import itertools
@@ -190,7 +191,7 @@ def run_manager(ops):
                     elif op in ("infoOK", "infoERR"):
                         FakeInfo.table = {"dev": ([1], []) if op == "infoOK" else (None, None)}
                         try:
-                            await hr._async_zeroconf_get_service_info(mgr, "_esphomelib._tcp.local.", "dev._esphomelib._tcp.local.", "dev.local.", 3.0)
+                            await priv_func(hr, "_async_zeroconf_get_service_info")(mgr, "_esphomelib._tcp.local.", "dev._esphomelib._tcp.local.", "dev.local.", 3.0)
                         except Exception:  # the lookup's own failure is not what is observed here
                             pass
                     elif op == "close":
